@@ -39,6 +39,8 @@ type Node struct {
 	outputReader *os.File
 	scriptFile   *os.File
 	done         bool
+	// stopRequested: the run is being stopped, no process is started any more
+	stopRequested bool
 }
 
 type NodeData struct {
@@ -165,9 +167,26 @@ func (n *Node) finish() {
 	n.data.State.FinishedAt = time.Now()
 }
 
+// requestStop records that the run is being stopped: the node starts no
+// process from now on. A process that is already running is not touched
+// (signalling it, or letting a repeating step finish its iteration, is up to
+// the caller).
+func (n *Node) requestStop() {
+	n.mu.Lock()
+	defer n.mu.Unlock()
+	n.stopRequested = true
+	if ps, ok := n.cmd.(interface{ PreventStart() }); ok {
+		ps.PreventStart()
+	}
+}
+
 func (n *Node) setupExec(ctx context.Context) (executor.Executor, error) {
 	n.mu.Lock()
 	defer n.mu.Unlock()
+
+	if n.stopRequested {
+		return nil, errStopRequested
+	}
 
 	ctx, fn := context.WithCancel(ctx)
 
@@ -340,6 +359,7 @@ func (n *Node) setup(logDir string, requestID string) error {
 
 var (
 	ErrWorkingDirNotExist = fmt.Errorf("working directory does not exist")
+	errStopRequested      = fmt.Errorf("not started: the run is being stopped")
 )
 
 func (n *Node) setupScript() (err error) {
